@@ -514,7 +514,44 @@ def gen_soup(rng: random.Random, via: str = "direct") -> Dict[str, Any]:
     return finish("soup", gl, la, rng, via)
 
 
+# --------------------------------------------------------------------------
+# a tall box on the left, a heading and a wide note (and sometimes a middle box) on the right
+# --------------------------------------------------------------------------
+def gen_col3(rng: random.Random, via: str = "direct") -> Dict[str, Any]:
+    import itertools
+
+    h = rng.choice([256, 384])
+    lm = rng.choice([0.25, 0.5, 1.0])
+    cm = rng.choice([0.5, 1.0, 2.0])
+    la = la_dict(rng.choice([0.25, 0.5]), cm, lm, rng.choice([0.0625, 0.125, 0.1]), rng.choice(BF), False)
+    thr = Fraction(lm) * h
+    g_in = rng.randrange(0, max(1, math.ceil(thr)))  # inside a box: closer than line_margin x height
+    pitch = h + g_in
+    n = rng.randint(4, 9)  # lines of the left box
+    m1 = rng.randint(2, 5)  # its width in glyphs
+    H = n * h + (n - 1) * g_in
+    G = max(int(Fraction(cm) * h), 64) + rng.choice([0, 0, 64, 256])
+    x_r = m1 * h + G
+    left = [make_line(0, H - h - i * pitch, h, m1 if i in (0, n - 1) else rng.randint(2, m1)) for i in range(n)]
+    ny, nz = rng.randint(1, 3), rng.randint(3, 12)
+    zl = rng.choice([1, 1, 2]) if n >= 5 else 1
+    head = [make_line(x_r, H - h, h, ny)]
+    note = [make_line(x_r, (zl - 1 - i) * pitch, h, nz if i == 0 else rng.randint(2, nz)) for i in range(zl)]
+    blocks = [left, head, note]
+    if n >= 7 and rng.random() < 0.25:
+        # a middle box on the right, separated by at least one empty slot from heading and note
+        slot = rng.randint(2, n - zl - 2)
+        blocks.append([make_line(x_r, H - h - slot * pitch, h, rng.randint(2, 6))])
+        if h + 2 * g_in < thr:  # an empty slot would not separate the boxes: leave the middle box out
+            blocks.pop()
+    perms = list(itertools.permutations(range(len(blocks))))
+    order = rng.choice(perms)
+    gl = [g for bi in order for ln in blocks[bi] for g in ln]
+    return finish("col3", gl, la, rng, via)
+
+
 GENERATORS = {
+    "col3": gen_col3,
     "row": gen_row,
     "multirow": gen_multirow,
     "vrow": gen_vrow,
